@@ -72,6 +72,14 @@ def build(cx, stations, station_of, H, mr, n_recompute, poison, table, tag="", v
                        nhist=len(sim.event_history), period=it.period, mr=it.max_recompute_time)
             calls.append(rec)
             if poison:
+                # the (deprecated, still public) EV view: a look-ahead "dry run" on the copies it hands out
+                import warnings as _w
+
+                with _w.catch_warnings():
+                    _w.simplefilter("ignore")
+                    for ev_copy in it.active_evs:
+                        ev_copy.charge(4.0, 208, 5)
+                        ev_copy._battery.reset(0)
                 for s in active_sessions:
                     s.energy_delivered = s.energy_delivered * 0.5 + 1
                     s.requested_energy = 0
